@@ -205,8 +205,46 @@ void vf_harness()
                 canaries=[{"fn": "ACovFunc::isConsistent", "rx": r"maxndim < _ctxt\.getNDim\(\)", "rp": "maxndim + 1 < _ctxt.getNDim()", "expect": r"assertion"}])
 
 
+def unit_param_domain():
+    """the shape parameter accepted by a structure stays inside the domain where its published form is a valid (positive definite) model"""
+    # published validity domains: Stable exp(-(h/a)^alpha): alpha in ]0, 2]; Power h^alpha: alpha in ]0, 2[; J-Bessel: order >= (ndim-2)/2 handled elsewhere
+    DOM = [("CovStable", "<= 2."), ("CovPower", "< 2.")]
+    fns = [Fn("%s::getParMax" % c, "include/Covariances/%s.hpp" % c, r"^\s*double\s+getParMax\(\)\s*const override\s*", csig="double %s_getParMax(void)" % c) for c, _ in DOM]
+    setp = Fn("ACovFunc::setParam", "src/Covariances/ACovFunc.cpp", r"^void ACovFunc::setParam\(double param\)\s*$", csig="void ACovFunc_setParam(double param)")
+    pre = """
+#define MAX_PARAM 1000
+#define TEST 1.234e30
+#define TEST_COMP 1.000e30
+#define FFFF(x) ((x) != (x) || (x) > TEST_COMP)
+int g_thrown; double _param; int g_which;
+#define my_throw(msg) do { g_thrown = 1; return; } while (0)
+static _Bool hasParam(void) { return 1; }
+%s
+static double getParMax(void) { %s return 0.; }
+""" % ("\n".join("double %s_getParMax(void);" % c for c, _ in DOM), " ".join("if (g_which == %d) return %s_getParMax();" % (k, c) for k, (c, _) in enumerate(DOM)))
+    h = """
+void vf_harness(void)
+{
+  vf_havoc_inputs();
+""" + "".join('  __CPROVER_assert(%s_getParMax() %s, "%s: the largest accepted shape parameter lies inside the published validity domain");\n' % (c, d, c) for c, d in DOM) + """
+  __CPROVER_assume(0 <= W_which && W_which < %d);
+  g_which = W_which; g_thrown = 0; _param = 1.;
+  __CPROVER_assume(W_param == W_param);          /* a number */
+  ACovFunc_setParam(W_param);
+  if (W_param < 0. || W_param > 2.) __CPROVER_assert(g_thrown && _param == 1., "a shape parameter outside the validity domain of these structures is refused and not installed");
+  if (!g_thrown) __CPROVER_assert(_param == W_param, "an accepted parameter is installed as given");
+  VF_REACH();
+}
+""" % len(DOM)
+    return Unit("C03.param_domain", fns + [setp], prelude=pre, harness=h, inputs=[("double", "W_param"), ("int", "W_which")], unwind=2, checks=[], backends=("minisat", "cadical"), timeout=300,
+                claim=("validity domain of the shape parameter (real getParMax of CovStable and CovPower + real ACovFunc::setParam): the Stable exponent is accepted up to 2 only and the Power "
+                       "exponent below 2 only — beyond, the published forms are not positive definite — and a parameter outside the domain is refused without being installed"),
+                assumptions=["published domains: Stable ]0,2], Power ]0,2[ (Chiles & Delfiner)"],
+                canaries=[{"fn": "ACovFunc::setParam", "rx": r"param > max", "rp": "param > max + 1.", "expect": r"assertion"}])
+
+
 def units(tier):
-    return [unit_factories(), unit_dimension_gate()] + [unit_struct(n) for n in STRUCTS] + [unit_closed(n) for n in CLOSED]
+    return [unit_factories(), unit_dimension_gate(), unit_param_domain()] + [unit_struct(n) for n in STRUCTS] + [unit_closed(n) for n in CLOSED]
 
 
 META = {
